@@ -1,6 +1,6 @@
 (* RunResp.v — executable entry points for C01 / C03 (and the response half of C09): a generated
    program, one of its operations, and payload vectors with what the compiled consumer crate did. *)
-From GC Require Import Base Rust Json TypeExpr Schema Query Attrs Codegen Serde RunSerde RunGen Conform.
+From GC Require Import Base Rust Json TypeExpr Schema Query Attrs Codegen Serde RunSerde RunGen Conform Compose.
 
 Inductive pelem := PKey (k : string) | PIdx (n : N).
 
@@ -50,7 +50,7 @@ Definition is_conforming (c : rcase) (v : vector) : bool :=
 
 (* the harness's labels agree with the specification: what it calls conforming conforms, what it
    calls corrupted does not *)
-Definition spec_gen (c : rcase) : bool :=
+Definition corr_spec (c : rcase) : bool :=
   forallb (fun v =>
     if String.eqb (v_label v) "conforming" then is_conforming c v
     else if String.prefix "corrupt:" (v_label v) || String.prefix "typename:unknown" (v_label v)
@@ -87,7 +87,7 @@ Definition prop_c03 (c : rcase) : bool :=
     let l := v_label v in
     match v_obs v with SNoCompile => true | _ =>
     if String.prefix "corrupt:" l then
-      if is_conforming c v then true (* not a corruption after all: reported by spec_gen *)
+      if is_conforming c v then true (* not a corruption after all: reported by corr_spec *)
       else match v_obs v with SErr => true | _ => false end
     else if String.prefix "typename:unknown" l then
       if o_other_variant (g_opts (r_g c))
@@ -108,3 +108,26 @@ Definition in_field_merging (c : rcase) : bool :=
   | None => false
   end.
 Definition known_field_merging (c : rcase) : bool := negb (in_field_merging c).
+
+(* ---------- certificate: the checker of Compose.v accepts the model's items for this operation
+   with a fuel bound below the one the run uses; then Compose.certified_accepts_all covers EVERY
+   conforming payload of the operation, not only the vectors of the run *)
+Definition certified (c : rcase) : bool :=
+  match model_schema c, model_items c with
+  | Some s, Some items =>
+      match certify s RunSerde.henv items (g_doc (r_g c)) (r_op c) with
+      | Some B => Nat.leb B FUEL
+      | None => false
+      end
+  | _, _ => false
+  end.
+
+(* the theorem's prediction against the compiled crate: a certified operation accepts every
+   conforming vector (a failure here would mean Serde.v or Conform.v is wrong) *)
+Definition corr_cert (c : rcase) : bool :=
+  negb (certified c) ||
+  forallb (fun v => negb (is_conforming c v) ||
+                    match v_obs v with SOk _ | SOkNoSer | SNoCompile => true | _ => false end) (r_vectors c).
+
+(* listed for the evidence: operations NOT covered by the certificate *)
+Definition info_uncertified (c : rcase) : bool := certified c.
